@@ -436,6 +436,8 @@ pub fn check_pipe(p: &Pipe) -> (Vec<Violation>, RunStats) {
                             layout_probe(&mut st, backend);
                         },
                         Stage::BFill { .. } => st.hit("bfill_internal_collect"),
+                        Stage::Scan => st.hit("scan_lower_bound_zero"),
+                        Stage::ToTrust => st.hit("to_trust_declared_length"),
                         Stage::VCut { .. } => st.hit("vcut_stage"),
                         _ => {},
                     }
@@ -652,19 +654,24 @@ fn check_sink(
 ) {
     let stage = sink.kind();
     let both: Vec<&'static str> = if sink.trusts_hint() { vec!["C09", "C19"] } else { vec!["C19"] };
-    let _ = p;
 
     // internal streams seen by the simulator-owned container
     for (i, rec) in c.sim.streams.iter().enumerate() {
         st.hints_checked += rec.hints.len() as u64;
         if rec.trusted {
             if let Some((y, h, total)) = rec.first_bad_hint() {
+                // the stream the consumer handed off went wrong while the container pulled
+                // from it: the same invariant as H1, attributed to the innermost culprit
+                let mut q = p.clone();
+                q.terminal = Terminal::Drain;
+                q.ops.extend(std::iter::repeat_n(Op::Next, y.min(64)));
+                let n = q.ops.len();
                 viol.push(Violation {
                     props: vec!["C09"],
-                    oracle: "H1i",
-                    stage: stage.clone(),
+                    oracle: "H1",
+                    stage: blame(&q, n, "H1"),
                     detail: format!(
-                        "stream #{i} handed to the container: after {y} items upper bound {h:?}, total {total}"
+                        "stream #{i} handed to {stage}: after {y} more items upper bound {h:?}, it yields {total} in total"
                     ),
                 });
             }
